@@ -81,6 +81,7 @@ inductive SysOp where
   | bPing (now : Time)                 -- `b`'s keep-alive timer fires
   | bAckIn (now : Time) (p : Packet)   -- `b` is handed an acknowledgement (not of SYN / CONNECT / DISCONNECT) of its own traffic
   | bFireResend (now : Time) (p : Packet) (k : Nat)  -- a retransmission timer of `b` (for its own traffic) fires, within the budget
+  | bFrag (now : Time) (f : Frag)      -- one turn of the fragment loop of a `send` of `b` (its own traffic, this substream)
   | fireResend (now : Time) (p : Packet) (k : Nat)  -- a retransmission timer of `a` that holds `p` (counter `k`) fires
   | ackIn (now : Time) (p : Packet)    -- `a.handle` is handed ANY acknowledgement (ACK or aggregate MULTI_ACK flag; true, stale,
                                        -- coalesced or forged) of a non-handshake packet
@@ -149,6 +150,7 @@ def Sys.step (env : Env) (sub : Nat) (s : Sys) : SysOp → Sys
   | .bRecvOther now p => { s with b := (s.b.handle env now p).c }
   | .bAckIn now p => { s with b := (s.b.handle env now p).c }
   | .bFireResend now p k => { s with b := (s.b.fireOne env now (.resend p k)).c }
+  | .bFrag now f => { s with b := (s.b.sendPacket env now (dataPacket sub f)).c }
 
 def Sys.run (env : Env) (sub : Nat) (s : Sys) (ops : List SysOp) : Sys := ops.foldl (Sys.step env sub) s
 
@@ -189,6 +191,7 @@ def Sys.opOk (env : Env) (sub : Nat) (s : Sys) : SysOp → Bool
   | .bAckIn _ p => (hasAck p.flags || hasMultiAck p.flags) && decide (p.type ≠ TYPE_SYN) && decide (p.type ≠ TYPE_CONNECT) &&
       decide (p.type ≠ TYPE_DISCONNECT)
   | .bFireResend _ _ k => decide (k < s.b.resendLimit) && s.b.linkUp   -- beyond the budget `b` tears its own connection down
+  | .bFrag _ _ => true
 
 def Sys.runOk (env : Env) (sub : Nat) : Sys → List SysOp → Bool
   | _, [] => true
@@ -655,6 +658,7 @@ def Sys.absOp (env : Env) (sub : Nat) (s : Sys) : SysOp → Option Op
   | .bRecvOther _ _ => none
   | .bAckIn _ _ => none
   | .bFireResend _ _ _ => none
+  | .bFrag _ _ => none
 
 def stepOpt (ci : Cipher) (size : Nat) (ch : Chan) : Option Op → Chan
   | none => ch
@@ -1064,6 +1068,13 @@ theorem cpl_step (env : Env) (hround : ∀ b, env.decompress (env.compress b) = 
     obtain ⟨w, hw, hgw, hwm⟩ := h.bwin
     exact ⟨⟨h.size, h.srel, h.acipher, h.log, h.netgood, h.netord, h5 h.blink, h6 h.beof, h.sent, h.opn, h.cln, h.pend, h1,
       ⟨w, by rw [h4]; exact hw, hgw, hwm⟩, h2, h3.trans h.bcipher, h.nrel⟩, fun o ho => by cases ho⟩
+  | bFrag now f =>
+    simp only [Sys.absOp, stepOpt, Sys.step]
+    have hf := sendPacket_recvFr env now s.b (dataPacket sub f) sub h.blink
+    obtain ⟨h1, h2, h3, h4, h5, h6⟩ := rrel_of_recvFr hf h.bwf h.rrel
+    obtain ⟨w, hw, hgw, hwm⟩ := h.bwin
+    exact ⟨⟨h.size, h.srel, h.acipher, h.log, h.netgood, h.netord, h5 h.blink, h6 h.beof, h.sent, h.opn, h.cln, h.pend, h1,
+      ⟨w, by rw [h4]; exact hw, hgw, hwm⟩, h2, h3.trans h.bcipher, h.nrel⟩, fun o ho => by cases ho⟩
   | bPing now =>
     simp only [Sys.absOp, stepOpt, Sys.step]
     have hf := sendPing_recvFr env now s.b sub h.blink
@@ -1178,6 +1189,7 @@ theorem timers_step (env : Env) (sub : Nat) (s : Sys) (op : SysOp) (h : TimersOk
   | bRecvOther now p => exact h
   | bAckIn now p => exact h
   | bFireResend now p k => exact h
+  | bFrag now f => exact h
 
 /-- **a retransmission is a re-delivery**: when a retransmission timer of the sender that holds a packet of the channel fires,
     what is handed to the transport is that very packet (or nothing), and it is an element of `net` — a copy of something
